@@ -6,5 +6,6 @@ CONSTANTS
   LatchChecked = TRUE
   CloseLatches = TRUE
   TimeoutReleases = TRUE
+  HandlerControlPath = TRUE
 INVARIANTS TypeOK WholeFrames
 CHECK_DEADLOCK FALSE
